@@ -378,7 +378,7 @@ def rand_input(rnd):
             lay = {"2.4": 15, "2.6.0": 7 if ispart else 14, "2.6.25": 14, "4.18": 18, "5.5": 20}[gen]
             devs[n] = {"layout": lay, "blocks": _rv(rnd), "c": [_rv(rnd) for _ in range(NSLOTS[lay])]}
         # /sys/block lists every whole disk of the machine, listed in diskstats or not
-        extra = [d for d in sorted(DISK_POOL) if d not in whole and rnd.random() < 0.1]
+        extra = [d for d in sorted(DISK_POOL) if d not in whole and rnd.random() < (0.1 if whole else 0.4)]
         return {"kind": "disk", "gen": gen, "devs": devs, "sysblock": sorted(whole + extra)}
     b = rnd.choice([0, 1, 7, rnd.randrange(0, VMAX + 1), VMAX])
     f = rnd.choice([0, b, rnd.randrange(0, b + 1)])
